@@ -6,6 +6,7 @@
    succeeds exactly on KEY256/KEY512 bytes and key_bytes() returns them. *)
 From V Require Export Model.NtsRecord.
 From V Require Import Gen.ConstNts.
+From V Require Base.NtsHex.
 
 (* NtsError classes (payload-carrying ones: class + 16 * payload) *)
 Definition E_INVALID : Z := 3.
@@ -294,3 +295,7 @@ Definition run30 (c : Z * list Z) : list Z :=
   if op =? 0 then run_record inp
   else if op =? 1 then run_request inp
   else run_response inp.
+
+(* the same on the compact transport encoding of the cases files *)
+Definition run30s (c : Z * String.string) : list Z :=
+  run30 (fst c, NtsHex.hex_bytes (snd c)).
